@@ -452,32 +452,33 @@ func ruleNodeNonNil(c *Ctx, rule string) {
 		})
 	}
 	// 2. non-nil summaries of parser functions
-	memo := map[*ssa.Function]int{}
+	memo := map[[2]interface{}]int{}
 	var nonNilVal func(v ssa.Value, d int) bool
-	var nonNilFn func(f *ssa.Function, d int) bool
-	nonNilFn = func(f *ssa.Function, d int) bool {
-		if r, ok := memo[f]; ok {
+	var nonNilFn func(f *ssa.Function, idx, d int) bool
+	nonNilFn = func(f *ssa.Function, idx, d int) bool {
+		key := [2]interface{}{f, idx}
+		if r, ok := memo[key]; ok {
 			return r != 2 // in progress (3) counts as non-nil: greatest fixpoint over recursion
 		}
 		if len(f.Blocks) == 0 || d > 8 {
 			return false
 		}
-		memo[f] = 3
+		memo[key] = 3
 		ok := true
 		n := 0
 		for _, b := range f.Blocks {
-			if ret, isRet := b.Instrs[len(b.Instrs)-1].(*ssa.Return); isRet && len(ret.Results) > 0 {
+			if ret, isRet := b.Instrs[len(b.Instrs)-1].(*ssa.Return); isRet && len(ret.Results) > idx {
 				n++
-				if !nonNilVal(ret.Results[0], d+1) {
+				if !nonNilVal(ret.Results[idx], d+1) {
 					ok = false
 				}
 			}
 		}
 		if ok && n > 0 {
-			memo[f] = 1
+			memo[key] = 1
 			return true
 		}
-		memo[f] = 2
+		memo[key] = 2
 		return false
 	}
 	nonNilVal = func(v ssa.Value, d int) bool {
@@ -510,12 +511,18 @@ func ruleNodeNonNil(c *Ctx, rule string) {
 			return true
 		case *ssa.Call:
 			if f := x.Call.StaticCallee(); f != nil && funcPkgPath(f) == parserPath {
-				return nonNilFn(f, d+1)
+				return nonNilFn(f, 0, d+1)
 			}
 		case *ssa.Extract:
 			// value of a comma-ok assertion: non-nil where ok was tested true
 			if ta, ok := x.Tuple.(*ssa.TypeAssert); ok && ta.CommaOk && x.Index == 0 {
 				return false // decided per use by guardedOnEdge / guards of the store
+			}
+			// one result of a parser function with several results
+			if cl, ok := x.Tuple.(*ssa.Call); ok {
+				if f := cl.Call.StaticCallee(); f != nil && funcPkgPath(f) == parserPath {
+					return nonNilFn(f, x.Index, d+1)
+				}
 			}
 		case *ssa.UnOp:
 			// load of a local that is only ever assigned non-nil values
@@ -716,5 +723,175 @@ func ruleDefinedSymbolKind(c *Ctx, rule string) {
 	}
 	if n == 0 {
 		c.Und(rule, "emit with the index of a DefineLocal result", "-", "none found: anchor lost")
+	}
+}
+
+// ---- C05/constlit-source -----------------------------------------------------------------------------------------
+// The "cannot happen" panics in constLiteral.emit / toExpr (default arms over
+// the kinds a literal constant can hold) are unreachable only while every value
+// stored into Symbol.constLit is (a) the result of constLitFromExpr, (b) a
+// literal whose value is of one of the kinds constLitFromExpr produces, or (c)
+// the constLit of a symbol known to be a literal constant (obtained from a
+// lookup that returns only symbols of scope ScopeConstLit).  Copying it from a
+// symbol that is merely Constant stores an empty literal, and the next use of
+// the name panics inside Compile.
+func ruleConstLitSource(c *Ctx, rule string) {
+	l := c.L
+	_, fScope := l.structField(modPath, "Symbol", "Scope")
+	from := l.Func(modPath, "constLitFromExpr")
+	scopeCL, okS := constOf(l, modPath, "ScopeConstLit")
+	// the literal type is the result type of constLitFromExpr; its payload is its
+	// field of interface type; Symbol carries it in its field of that type
+	fCL, fVal := -1, -1
+	if from != nil && from.Signature.Results().Len() == 1 {
+		litT := from.Signature.Results().At(0).Type()
+		if st, ok := litT.Underlying().(*types.Struct); ok {
+			for i := 0; i < st.NumFields(); i++ {
+				if _, isI := st.Field(i).Type().Underlying().(*types.Interface); isI && fVal < 0 {
+					fVal = i
+				}
+			}
+		}
+		if symT := l.NamedType(modPath, "Symbol"); symT != nil {
+			if st, ok := symT.Underlying().(*types.Struct); ok {
+				for i := 0; i < st.NumFields(); i++ {
+					if types.Identical(st.Field(i).Type(), litT) {
+						fCL = i
+					}
+				}
+			}
+		}
+	}
+	if !c.Anchor(rule, "Symbol.constLit / Symbol.Scope / constLiteral.value / constLitFromExpr / ScopeConstLit", fCL >= 0 && fScope >= 0 && fVal >= 0 && from != nil && okS) {
+		return
+	}
+	// kinds produced by constLitFromExpr
+	kinds := map[string]bool{}
+	eachInstr(from, func(ins ssa.Instruction) {
+		if mi, ok := ins.(*ssa.MakeInterface); ok {
+			kinds[tstr(mi.X.Type())] = true
+		}
+	})
+	// lookups that return only ScopeConstLit symbols when asked for that scope:
+	// every non-nil return is guarded by Scope == the scope parameter
+	scopeFiltered := func(f *ssa.Function) (int, bool) {
+		pi := -1
+		for i, p := range f.Params {
+			if isNamed(p.Type(), modPath, "SymbolScope") {
+				pi = i
+			}
+		}
+		if pi < 0 {
+			return -1, false
+		}
+		for _, b := range f.Blocks {
+			ret, ok := b.Instrs[len(b.Instrs)-1].(*ssa.Return)
+			if !ok || len(ret.Results) != 1 {
+				continue
+			}
+			if k, ok := ret.Results[0].(*ssa.Const); ok && k.IsNil() {
+				continue
+			}
+			guarded := false
+			for _, g := range guardEdges(b) {
+				bo, ok := g.If.Cond.(*ssa.BinOp)
+				if !ok || bo.Op != token.EQL || !g.Truth {
+					continue
+				}
+				for _, pr := range [][2]ssa.Value{{bo.X, bo.Y}, {bo.Y, bo.X}} {
+					if pr[1] != ssa.Value(f.Params[pi]) {
+						continue
+					}
+					if u, ok := pr[0].(*ssa.UnOp); ok {
+						if fa, ok := isFieldAddrOf(u.X, modPath, "Symbol", fScope); ok && fa.X == ret.Results[0] {
+							guarded = true
+						}
+					}
+				}
+			}
+			if !guarded {
+				return pi, false
+			}
+		}
+		return pi, true
+	}
+	isLitSymbol := func(s ssa.Value, at *ssa.BasicBlock) bool {
+		if cl, ok := s.(*ssa.Call); ok {
+			if f := cl.Call.StaticCallee(); f != nil && funcPkgPath(f) == modPath && len(f.Blocks) > 0 {
+				if pi, ok := scopeFiltered(f); ok && pi < len(cl.Call.Args) {
+					if k, ok := constInt64(cl.Call.Args[pi]); ok && k == scopeCL {
+						return true
+					}
+				}
+			}
+		}
+		// or a test of the symbol's scope on the way to the store
+		for _, g := range guardEdges(at) {
+			bo, ok := g.If.Cond.(*ssa.BinOp)
+			if !ok || bo.Op != token.EQL || !g.Truth {
+				continue
+			}
+			for _, pr := range [][2]ssa.Value{{bo.X, bo.Y}, {bo.Y, bo.X}} {
+				if k, ok := constInt64(pr[1]); !ok || k != scopeCL {
+					continue
+				}
+				if u, ok := pr[0].(*ssa.UnOp); ok {
+					if fa, ok := isFieldAddrOf(u.X, modPath, "Symbol", fScope); ok && fa.X == s {
+						return true
+					}
+				}
+			}
+		}
+		return false
+	}
+	n := 0
+	for _, fn := range l.RepoFuncs(func(p string) bool { return p == modPath }) {
+		eachInstr(fn, func(ins ssa.Instruction) {
+			st, ok := ins.(*ssa.Store)
+			if !ok {
+				return
+			}
+			if _, ok := isFieldAddrOf(st.Addr, modPath, "Symbol", fCL); !ok {
+				return
+			}
+			n++
+			good, why := false, "the stored value is not recognised as a literal constant"
+			switch v := st.Val.(type) {
+			case *ssa.Call:
+				good = v.Call.StaticCallee() == from
+			case *ssa.UnOp:
+				if al, ok := v.X.(*ssa.Alloc); ok && al.Referrers() != nil {
+					// a constLiteral{value: X} built in place
+					good = true
+					seenVal := false
+					for _, r := range *al.Referrers() {
+						fa, ok := r.(*ssa.FieldAddr)
+						if !ok || fa.Field != fVal || fa.Referrers() == nil {
+							continue
+						}
+						for _, rr := range *fa.Referrers() {
+							if s2, ok := rr.(*ssa.Store); ok && s2.Addr == ssa.Value(fa) {
+								seenVal = true
+								mi, ok := s2.Val.(*ssa.MakeInterface)
+								if !ok || !kinds[tstr(mi.X.Type())] {
+									good = false
+									why = "a literal of a kind constLitFromExpr never produces (" + describe(s2.Val) + ")"
+								}
+							}
+						}
+					}
+					if !seenVal {
+						good, why = false, "an empty constLiteral"
+					}
+				} else if fa, ok := isFieldAddrOf(v.X, modPath, "Symbol", fCL); ok {
+					good = isLitSymbol(fa.X, st.Block())
+					why = "copied from a symbol that is not known to be a literal constant (scope ScopeConstLit)"
+				}
+			}
+			c.Check(rule, fmt.Sprintf("%s | symbol.constLit = %s", fnName(fn), describe(st.Val)), l.Pos(st.Pos()), good, "a literal of a handled kind", why+": the symbol carries an empty literal and the next use of the name reaches the 'unexpected object type' panic inside Compile")
+		})
+	}
+	if n == 0 {
+		c.Und(rule, "stores to Symbol.constLit", "-", "none found: anchor lost")
 	}
 }
